@@ -336,7 +336,7 @@ class World:
         world = self
 
         def fn(*args, **kwargs):
-            if world.token_mode and nd["beh"]["t"] == "raise":
+            if world.token_mode and nd["beh"]["t"] == "raise" and nd["beh"]["first"] < 0:
                 # C16: the frames of a failing call end up in the traceback of the reported error; they must
                 # not be what keeps the arguments alive
                 del args, kwargs
